@@ -103,6 +103,19 @@ def check_c18(tier, seed):
     run_batch(out, "file", "A", file_bundles(tier, seed), group_key=key, extra_specs=("Trace_Config",))
     run_batch(out, "handle", "A", handle_bundles(tier, seed), spec="Trace_Handle", driver="hdrive", group_key=key,
               extra_specs=("Trace_Config",))
+    # the same bytes and the same options through every constructor: images that only a permissive open accepts (TLC-generated
+    # deviations) are dumped a dozen times each, and the dumps go through the in-memory constructors and, every tenth time, through a
+    # real file opened by path (read-only / read-write) - a constructor that loses an option on the way answers differently from
+    # the others.  (The rule that states it is C16's "strict rejects"; in this batch its failures can only be about the constructor.)
+    from . import imagechecks
+    c = [x for x in imagechecks.contents(tier) if x["id"] == "c4_mixed"][0]
+    hs = []
+    for ver in (3, 4):
+        devs = imagechecks.tlc_deviations(out, c, ver, 1, 1, 1, 1, seed, False, f"c18_dev_v{ver}")
+        for i, D in enumerate(devs[:12] if tier == "quick" else devs):
+            hs.append({"id": f"ctor_{ver}_{i}:{D['dev']}", "ver": ver, "heavy": "marked", "layout": D["lay"], "tree": D["tree"],
+                       "open_mode": "permissive", "expect": "deviation", "ops": [{"op": "flush", "heavy": True} for _ in range(12)]})
+    run_batch(out, "constructors", c["dict"], hs, also_own=("C16",))
     return finish(out, "model_checking",
                   "each script runs under {two runs, std::fs::File, chunked / Interrupted in-memory backends, several max_buffer_size values} x {V3, V4}; "
                   "every run is validated against the same deterministic model (Trace_File / Trace_Handle) and Trace_Config requires identical results across all "
